@@ -329,7 +329,7 @@ func c12Single(idx int, uniq int) *gtfsrt.EntitySelector {
 			d.DirectionId = rgen.U32(uint32((uniq / 3) % 2))
 		}
 		if m&8 != 0 {
-			d.StartTime = rgen.S(fmt.Sprintf("%02d:%02d:%02d", uniq%24, (uniq/24)%60, uniq%60))
+			d.StartTime = rgen.S(fmt.Sprintf("%02d:%02d:%02d", []int{uniq % 24, uniq % 24, 24, 47, 48, 49, 72, 99}[uniq%8], (uniq/24)%60, uniq%60))
 		}
 		if m&16 != 0 {
 			d.StartDate = rgen.S("20240115")
@@ -376,7 +376,7 @@ func c12RandomAlert(r *core.Rand, uniq int) []*gtfsrt.EntitySelector {
 				s.Trip.DirectionId = rgen.U32(uint32(r.Intn(2)))
 			}
 		case 6: // identifiable without id
-			s.Trip = &gtfsrt.TripDescriptor{RouteId: rgen.S(core.Pick(r, routes)), DirectionId: rgen.U32(uint32(r.Intn(2))), StartTime: rgen.S(fmt.Sprintf("%02d:%02d:00", i, uniq%60)), StartDate: rgen.S("20240115")}
+			s.Trip = &gtfsrt.TripDescriptor{RouteId: rgen.S(core.Pick(r, routes)), DirectionId: rgen.U32(uint32(r.Intn(2))), StartTime: rgen.S(fmt.Sprintf("%02d:%02d:00", []int{i, i, 24 + i, 48 + i, 72, 99}[uniq%6], uniq%60)), StartDate: rgen.S("20240115")}
 		case 7: // non-identifying with extras (route + start time)
 			s.Trip = &gtfsrt.TripDescriptor{RouteId: rgen.S(core.Pick(r, routes)), StartTime: rgen.S("08:00:00")}
 			if r.Bool() {
